@@ -143,7 +143,7 @@ def conv_obj(uni, o, pal, extra, n):
     return v
 
 
-def convert(uni, hist, idx, obs_around_reopen=True, pal=None, storage=None, extra=None):
+def convert(uni, hist, idx, obs_around_reopen=True, pal=None, storage=None, extra=None, thr=100000, tmo_ms=3600000, vclock=False):
     """A TLC history -> a harness test."""
     head, ops = hist[0], hist[1:]
     pal = idx % len(PALETTES) if pal is None else pal
@@ -190,11 +190,18 @@ def convert(uni, hist, idx, obs_around_reopen=True, pal=None, storage=None, extr
             out.append({"op": "collect", "h": nh, "lim": -1, "what": "collect"})
         elif k == "collect2":
             out.append({"op": "collect", "h": nh + 1, "lim": -1, "what": "collect"})
-        elif k in ("tick", "poll", "switch"):
-            out.append(dict(op))
+        elif k in ("tick", "poll"):
+            out.append({"op": "tick"})
+            vclock = True
+        elif k == "switch":
+            out.append({"op": "switch", "cfg": {"cache": op["cache"], "async": op["async"], "thr": thr, "tmo_ms": tmo_ms}})
+            vclock = True
         else:
             raise ValueError("unknown model op " + k)
-    return {"id": "mc%d" % idx, "cfg": make_cfg(head["cache"], head["async"], storage), "ops": out}
+    t = {"id": "mc%d" % idx, "cfg": make_cfg(head["cache"], head["async"], storage, thr=thr, tmo_ms=tmo_ms), "ops": out}
+    if vclock:
+        t["vclock"] = True
+    return t
 
 
 def dedupe_histories(hists):
@@ -573,3 +580,32 @@ def corrupt_tests(uni, rng, n_schema, n_object, exhaustive=False):
     for kind, name in STRAYS:
         add({"target": "stray", "kind": kind, "val": name})
     return out
+
+
+def async_test(uni, rng, idx, nops=14, nslots=5):
+    """C10: asynchronous collection driven with the virtual clock: writes, deletes of pending objects,
+    ticks (the flusher must flush on threshold / timeout), explicit flushes, close + reopen."""
+    g = RandGen(uni, rng, nslots=nslots)
+    thr = rng.choice([1, 2, 3, 4])
+    tmo = rng.choice([1, 2, 3, 5])
+    ops = []
+    for _ in range(nops):
+        x = rng.random()
+        if x < 0.4:
+            ops.append({"op": "put", "slot": g.slot(), "o": g.obj()})
+        elif x < 0.5:
+            ops.append(g.batch())
+        elif x < 0.62:
+            ops.append({"op": "del", "slot": g.slot()})
+        elif x < 0.82:
+            ops.append({"op": "tick"})
+        elif x < 0.88:
+            ops.append({"op": "flush", "what": rng.choice(["all", "allcommit", "commit"])})
+        elif x < 0.94:
+            ops.append({"op": "obs", "light": True})
+        else:
+            ops.append({"op": "obs"})
+            ops.append({"op": "reopen", "close": True, "create": rng.random() < 0.6})
+            ops.append({"op": "obs"})
+    t = {"id": "as%d" % idx, "cfg": make_cfg(rng.random() < 0.5, True, rng.randrange(len(STORAGE)), thr=thr, tmo_ms=tmo * 100), "ops": ops, "fields": ["K", "S"] + g.flds[:1], "vclock": True}
+    return t
